@@ -29,8 +29,9 @@ func init() {
 		Rule: "RSA public keys: the 8 fixtures plus synthetic (N, E) with every modulus byte length 1..300 (all DER length-form borders at every nesting level), selected larger ones up to 8200 bits (and ~65536 bytes in the thorough tier), top bit set and clear, exponents {3, 17, 65537, 2^31-1, seeded odd}. " +
 			"Oracle: MarshalTokenKeyPSSOID == DER assembled byte by byte by the reference (RFC 9578 RSASSA-PSS AlgorithmIdentifier, own length encoder) and anchored by the Rust vectors' pkS; the legacy form == the reference rsaEncryption SPKI and is parsed by crypto/x509 to the same (N, E); UnmarshalTokenKey inverts both forms. " +
 			"Key ids: TokenKeyID() of type 1/2/3/5 issuers == SHA-256(reference serialization) and requests of types 1, 2, 5 carry byte 31 of it (keys whose id has different first and last bytes); type-3 requests carry SHA-256(reference EncapKey encoding) as name key id. " +
+			"Related keys in sequence: issuers over the same modulus with different exponents, keys whose hex(N)||hex(E) coincide decoded back to back in both forms, keys decoded from accepted encodings with other PSS parameters / trailing bytes must encode to the prescribed DER (and give its SHA-256 as key id), name keys decoded from encoding||trailing bytes. " +
 			"distinct_nontrivial = distinct (modulus byte length, top bit, exponent class) and (issuer type, key) keys",
-		Floors:      []string{"pss_der_equals_reference", "legacy_der_equals_reference", "unmarshal_inverts_pss", "unmarshal_inverts_legacy", "x509_accepts_legacy", "rust_pks_anchor", "key_id_type1", "key_id_type2", "key_id_type3", "key_id_type5", "truncated_key_id_last_byte", "name_key_id", "name_key_id_decoded_suites"},
+		Floors:      []string{"pss_der_equals_reference", "legacy_der_equals_reference", "unmarshal_inverts_pss", "unmarshal_inverts_legacy", "x509_accepts_legacy", "rust_pks_anchor", "key_id_type1", "key_id_type2", "key_id_type3", "key_id_type5", "truncated_key_id_last_byte", "name_key_id", "name_key_id_decoded_suites", "key_id_same_modulus_other_exponent", "related_keys_decoded_back_to_back", "decoded_key_encodes_to_prescribed_der"},
 		Assumptions: []string{"encoding needs no factorisation: synthetic moduli are arbitrary positive integers", "go-hpke's X25519 key derivation and crypto/x509 are trusted"},
 		Run:         runC18,
 	})
@@ -105,8 +106,163 @@ func idStable(get func() []byte, want []byte) bool {
 	return bytes.Equal(b, want)
 }
 
+// c18Related: consecutive operations on RELATED keys, each judged by the stateless reference: issuers over the same
+// modulus with different public exponents; keys whose hexadecimal (N, E) concatenations coincide decoded one after
+// the other in both SPKI forms; keys decoded from RSASSA-PSS encodings with other parameters or trailing bytes (when
+// the decoder accepts them) must still ENCODE to the prescribed DER.
+func c18Related(c *core.Ctx, rk []*rsa.PrivateKey) {
+	// (a) same modulus, different exponents
+	for ki, k := range rk {
+		if !c.Next() {
+			continue
+		}
+		for _, order := range [][]int{{65537, 3, 17, 65537, 3}, {3, 65537, 1<<31 - 1, 5, 65537}} {
+			for _, e := range order {
+				c.Eval(2)
+				want := sha256.Sum256(ref.SPKIRSAPSS(k.N, e))
+				d := map[string]any{"fixture": ki, "exponent": e, "exponents_in_order": order}
+				key := &rsa.PrivateKey{PublicKey: rsa.PublicKey{N: k.N, E: e}}
+				pan, pv, where := core.Guard(func() {
+					if got := type2.NewBasicPublicIssuer(key).TokenKeyID(); !bytes.Equal(got, want[:]) {
+						c.Violation("keyid:type2:same-modulus-other-exponent", "type-2 TokenKeyID of an issuer whose key shares its modulus with an earlier issuer's key is not SHA-256 of ITS serialized public key", d)
+						return
+					}
+					if got := type3.NewRateLimitedIssuer(key).TokenKeyID(); !bytes.Equal(got, want[:]) {
+						c.Violation("keyid:type3:same-modulus-other-exponent", "type-3 TokenKeyID of an issuer whose key shares its modulus with an earlier issuer's key is not SHA-256 of ITS serialized public key", d)
+						return
+					}
+					c.Class("key_id_same_modulus_other_exponent")
+				})
+				if pan {
+					c.Violation("keyid:panic:"+where, "panic: "+pv, d)
+				}
+			}
+		}
+		c.Distinctf("related:exponents:%d", ki)
+	}
+	// (b) keys whose hex(N)||hex(E) coincide, decoded back to back
+	for ki, k := range rk[:min(len(rk), 4)] {
+		if !c.Next() {
+			continue
+		}
+		type ne struct {
+			n *big.Int
+			e int
+		}
+		base := ne{k.N, 65537}
+		pairs := [][2]ne{}
+		// move leading hex digits of E to the end of N
+		eh := fmt.Sprintf("%x", base.e) // "10001"
+		for cut := 1; cut < len(eh); cut++ {
+			n2, _ := new(big.Int).SetString(k.N.Text(16)+eh[:cut], 16)
+			var e2 int
+			fmt.Sscanf(eh[cut:], "%x", &e2)
+			if e2 > 0 {
+				pairs = append(pairs, [2]ne{base, {n2, e2}})
+			}
+		}
+		// move trailing hex digits of N to the front of E
+		nh := k.N.Text(16)
+		for _, cut := range []int{1, 2, 5} {
+			n2, _ := new(big.Int).SetString(nh[:len(nh)-cut], 16)
+			var e2 int
+			fmt.Sscanf(nh[len(nh)-cut:]+"3", "%x", &e2)
+			pairs = append(pairs, [2]ne{{k.N, 3}, {n2, e2}})
+		}
+		for pi, pr := range pairs {
+			for _, legacy := range []bool{false, true} {
+				for _, order := range [][]int{{0, 1, 0}, {1, 0, 1}} {
+					for _, which := range order {
+						x := pr[which]
+						c.Eval(1)
+						var enc []byte
+						if legacy {
+							enc = ref.SPKIRSAEncryption(x.n, x.e)
+						} else {
+							enc = ref.SPKIRSAPSS(x.n, x.e)
+						}
+						d := map[string]any{"fixture": ki, "pair": pi, "legacy_form": legacy, "modulus": x.n.Text(16), "exponent": x.e, "other_modulus": pr[1-which].n.Text(16), "other_exponent": pr[1-which].e}
+						pan, pv, where := core.Guard(func() {
+							back, err := util.UnmarshalTokenKey(clone(enc))
+							if err != nil || back.N.Cmp(x.n) != 0 || back.E != x.e {
+								c.Violation("UnmarshalTokenKey:related-keys", fmt.Sprintf("UnmarshalTokenKey does not return the key that was encoded when a key with the same hex(N)||hex(E) was decoded just before (err=%v)", err), d)
+								return
+							}
+							c.Class("related_keys_decoded_back_to_back")
+						})
+						if pan {
+							c.Violation("tokenkey:panic:"+where, "panic: "+pv, d)
+						}
+					}
+				}
+			}
+		}
+		c.Distinctf("related:hexconcat:%d", ki)
+	}
+	// (c) other PSS parameters / trailing bytes: whatever the decoder accepts must re-encode to the prescribed DER
+	for ki, k := range rk[:min(len(rk), 4)] {
+		if !c.Next() {
+			continue
+		}
+		pres := ref.SPKIRSAPSS(k.N, k.E)
+		variants := map[string][]byte{"prescribed": pres, "trailing-bytes": append(clone(pres), 0xde, 0xad, 0xbe, 0xef), "trailing-zero": append(clone(pres), 0)}
+		if i := bytes.LastIndex(pres[:80], []byte{0xa2, 0x03, 0x02, 0x01, 0x30}); i >= 0 {
+			v := clone(pres)
+			v[i+4] = 0x20
+			variants["salt-length-32"] = v
+			v2 := clone(pres)
+			v2[i+4] = 0x00
+			variants["salt-length-0"] = v2
+		}
+		sha384 := []byte{0x60, 0x86, 0x48, 0x01, 0x65, 0x03, 0x04, 0x02, 0x02}
+		if bytes.Count(pres[:80], sha384) == 2 {
+			v := bytes.Replace(clone(pres[:80]), sha384, []byte{0x60, 0x86, 0x48, 0x01, 0x65, 0x03, 0x04, 0x02, 0x01}, 2)
+			variants["sha-256-parameters"] = append(v, pres[80:]...)
+			v1 := bytes.Replace(clone(pres[:80]), sha384, []byte{0x60, 0x86, 0x48, 0x01, 0x65, 0x03, 0x04, 0x02, 0x03}, 1)
+			variants["sha-512-hash-only"] = append(v1, pres[80:]...)
+		}
+		names := []string{"prescribed", "salt-length-32", "trailing-bytes", "sha-256-parameters", "salt-length-0", "trailing-zero", "sha-512-hash-only", "prescribed"}
+		for _, name := range names {
+			enc, ok := variants[name]
+			if !ok {
+				continue
+			}
+			c.Eval(1)
+			d := map[string]any{"fixture": ki, "variant": name, "encoding_head": core.Hex(enc[:min(len(enc), 90)])}
+			pan, pv, where := core.Guard(func() {
+				back, err := util.UnmarshalTokenKey(clone(enc))
+				if err != nil {
+					c.Class("nonprescribed_encoding_rejected")
+					return
+				}
+				if back.N.Cmp(k.N) != 0 || back.E != k.E {
+					c.Violation("UnmarshalTokenKey:variant-decodes-to-other-key", "an accepted RSASSA-PSS encoding decodes to another key", d)
+					return
+				}
+				got, err := util.MarshalTokenKeyPSSOID(back)
+				if err != nil || !bytes.Equal(got, pres) {
+					d["got_head"] = core.Hex(got[:min(len(got), 90)])
+					c.Violation("MarshalTokenKeyPSSOID:decoded-key-encodes-differently", "a key decoded from an accepted encoding ("+name+") does not encode to the DER prescribed for Privacy Pass token keys", d)
+					return
+				}
+				id := sha256.Sum256(pres)
+				if got := type2.NewBasicPublicIssuer(&rsa.PrivateKey{PublicKey: *back}).TokenKeyID(); !bytes.Equal(got, id[:]) {
+					c.Violation("keyid:type2:decoded-key", "the key id of a key decoded from an accepted encoding ("+name+") is not SHA-256 of the prescribed serialization", d)
+					return
+				}
+				c.Class("decoded_key_encodes_to_prescribed_der")
+			})
+			if pan {
+				c.Violation("tokenkey:panic:"+where, "panic: "+pv, d)
+			}
+		}
+		c.Distinctf("related:variants:%d", ki)
+	}
+}
+
 func runC18(c *core.Ctx) {
 	rk := RSAKeys()
+	c18Related(c, rk)
 	// ---- DER: fixtures
 	for i, k := range rk {
 		if c.Next() {
@@ -332,6 +488,26 @@ func runC18(c *core.Ctx) {
 					}
 					c.Class("name_key_id_decoded_suites")
 				}
+			}
+			// a name key decoded from its encoding followed by other bytes (if the decoder accepts that): the request carries
+			// SHA-256 of the key's serialization, i.e. of what Marshal returns for it, and the issuer owning the key serves it
+			for _, tail := range [][]byte{{0}, {0xde, 0xad}, enc} {
+				nk, err := type3.UnmarshalEncapKey(append(clone(enc), tail...))
+				if err != nil {
+					c.Class("name_key_with_trailing_bytes_rejected")
+					continue
+				}
+				st4, err := cl.CreateTokenRequest(r.Bytes(8), r.Bytes(32), ScalarBytes(r, curve.Params().N, 48), iss3.TokenKeyID(), iss3.TokenKey(), "origin.example", nk)
+				want := sha256.Sum256(nk.Marshal())
+				if err != nil || !bytes.Equal(st4.Request().NameKeyID, want[:]) || !bytes.Equal(nk.Marshal(), enc) {
+					c.Violation("namekeyid:decoded-with-trailing-bytes", "a type-3 request made with a name key decoded from its encoding followed by other bytes does not carry SHA-256 of the serialized name key", map[string]any{"name_key": core.Hex(enc), "trailing": core.Hex(tail)})
+					return
+				}
+				if _, _, err := iss3.Evaluate(st4.Request().Marshal()); err != nil {
+					c.Violation("namekeyid:decoded-with-trailing-bytes-not-served", "the issuer owning the name key refuses a request made with that key decoded from its encoding followed by other bytes: "+err.Error(), map[string]any{"name_key": core.Hex(enc), "trailing": core.Hex(tail)})
+					return
+				}
+				c.Class("name_key_with_trailing_bytes_consistent")
 			}
 			c.Class("name_key_id")
 			c.Distinctf("keyid:%d", i)
